@@ -95,7 +95,7 @@ LATIN1_JIS = '°±§¶×÷¢£¥¨¬´'
 CP932_ONLY = '～－∥①②③㈱髙№℡'
 
 CLASSES = ['digits', 'alnum', 'ascii', 'latin1', 'kana', 'utf8', 'cyr', 'sjis_bytes', 'lead_trail',
-           'hanzi', 'bytes', 'int', 'empty', 'latin1_jis', 'cp932_only', 'upper']
+           'hanzi', 'bytes', 'int', 'empty', 'latin1_jis', 'cp932_only', 'upper', 'nfd']
 
 
 def content_of(rng, cls, n=None):
@@ -111,6 +111,10 @@ def content_of(rng, cls, n=None):
         return latin1_text(rng, n)
     if cls == 'latin1_jis':
         return ''.join(rng.choice(LATIN1_JIS) if rng.random() < 0.3 else chr(rng.randint(0x20, 0x7e)) for _ in range(max(n, 1)))
+    if cls == 'nfd':
+        # text whose NFC form would be Latin-1 but which, as given, is not: must not be normalised behind the user's back
+        return ''.join(rng.choice(['e\u0301', 'A\u030a', 'u\u0308', '\u212b', '\u212a', 'n\u0303', 'Cafe\u0301', 'o\u0302']) if rng.random() < 0.5
+                       else rng.choice('abcXYZ 12') for _ in range(max(n // 2, 1)))
     if cls == 'upper':
         return ''.join(rng.choice('ABCDEFGHIJKLMNOPQRSTUVWXYZ0123456789') for _ in range(max(n, 1)))
     if cls == 'cp932_only':
@@ -158,7 +162,8 @@ def rnd_options(rng, heavy=False):
         kw['mask'] = rng.randint(0, 7)
     if rng.random() < 0.25:
         kw['encoding'] = rng.choice(['utf-8', 'iso-8859-1', 'latin1', 'shift_jis', 'UTF-8', 'iso-8859-15',
-                                     'cp1252', 'utf-16-be', 'ascii', 'cp437', 'gbk', 'euc_kr', 'big5', None])
+                                     'cp1252', 'utf-16-be', 'ascii', 'cp437', 'gbk', 'euc_kr', 'big5', 'utf-16', 'utf-8-sig', 'utf-32',
+                                     'iso2022_jp', 'hz', None])
     if rng.random() < 0.25:
         kw['eci'] = rng.choice([True, False])
     if rng.random() < 0.3:
@@ -179,6 +184,8 @@ def rnd_parts(rng):
             parts.append(c)
         elif r < 0.8:
             parts.append((c, None))
+        elif r < 0.85 and isinstance(c, str) and c.isdigit():
+            parts.append((c, rng.choice([1, 2, 4])))   # mode *constants* (ISO mode indicators) are what the tuple form takes
         else:
             # (content, mode, encoding) tuples: only mode None - per-part mode *names* are not part of the
             # documented interface (prepare_data expects internal constants there)
@@ -232,3 +239,55 @@ def boundaries(modes=('numeric', 'alphanumeric', 'byte', 'kanji', 'hanzi')):
                 if n is not None and n > 0:
                     out.append((v, lv, m, n))
     return out
+
+
+def m4_full_right_edge_contents(limit=60, seed=0):
+    """Alphanumeric contents for M4 symbols whose right-most column is completely dark under at least one mask
+    candidate (an edge sum of 16 needs a fifth bit: the extreme value of the ISO 7.8.3.2 score). The right-most
+    column carries the even bit positions of the first 32 stream bits; they are solved for, the odd ones enumerated."""
+    from refmodel import qr as _qr
+    out = []
+    order = _qr.data_module_order('M4')
+    col = [(r, c) for (r, c) in order[:32] if c == 16]
+    pos = {rc: i for i, rc in enumerate(order[:32])}
+    for k in range(4):
+        fn = _qr.mask_fn('M4', k)
+        need = {}
+        for (r, c) in col:
+            need[pos[(r, c)]] = 1 ^ (1 if fn(r, c) else 0)
+        if need[0] != 0 or need[2] != 1:
+            continue         # the mode indicator 001 is fixed: this candidate cannot be served by alphanumeric content
+        free = [i for i in range(32) if i not in need]
+        combos = list(range(0, 1 << len(free), 2))
+        random.Random(seed).shuffle(combos)
+        for combo in combos:
+            bits = [0] * 32
+            for i, v in need.items():
+                bits[i] = v
+            for j, i in enumerate(free):
+                bits[i] = (combo >> j) & 1
+            if bits[1] != 0:
+                continue
+            count = int(''.join(map(str, bits[3:8])), 2)
+            p1 = int(''.join(map(str, bits[8:19])), 2)
+            p2 = int(''.join(map(str, bits[19:30])), 2)
+            if not 5 <= count <= 20 or p1 >= 2025 or p2 >= 2025:
+                continue
+            # third pair (or final single character) must start with bits 30, 31
+            head = ALNUM[p1 // 45] + ALNUM[p1 % 45] + ALNUM[p2 // 45] + ALNUM[p2 % 45]
+            rest = None
+            if count >= 6:
+                lo = (bits[30] << 10) | (bits[31] << 9)
+                for p3 in range(lo, min(lo + 512, 2025)):
+                    rest = ALNUM[p3 // 45] + ALNUM[p3 % 45] + 'A' * (count - 6)
+                    break
+            else:
+                lo = (bits[30] << 5) | (bits[31] << 4)
+                if lo < 45:
+                    rest = ALNUM[lo]
+            if rest is None:
+                continue
+            out.append(head + rest)
+            if len(out) >= limit * (k + 1):
+                break
+    return out[:limit * 4]
